@@ -32,6 +32,13 @@ THEOREMS = [
     "Verif.C07.roi_crop_refines",
     "Verif.C07.roi_apply_shape",
     "Verif.C07.legacy_frame_ranges",
+    "Verif.C07.get_frame_refines",
+    "Verif.C07.time_window_refines",
+    "Verif.C07.tether_horizontal",
+    "Verif.C07.tether_length",
+    "Verif.C07.tether_midpoint",
+    "Verif.C07.tether_crop_consistent",
+    "Verif.C07.F9_witness",
 ]
 RULE = (
     "corpus (F2 inputs) + exhaustive small scope on real TIFF stacks of n<=6 frames of 4x5 pixels: every slice with "
@@ -39,10 +46,10 @@ RULE = (
     "distinct (start,stop,step) state reachable on n=6 every second-level slice/integer (quick: second-level steps "
     "{None,2}); every ROI (bounds in [-dim-1,dim+1] or None) of the 4x5 image through Roi.crop, a sub-grid of them "
     "(thorough: all) through crop_by_pixels+get_image, re-crops of a cropped image, tuple indices incl. integers; "
-    "slice.indices self-test; file/page lookup for 1-3 files; legacy frame ranges + seeded random programs of 1-4 "
+    "slice.indices self-test; file/page lookup for all 1-3 files of 1-3 pages; legacy frame ranges + seeded random programs of 1-4 "
     "operations (frame slice, integer, crop_by_pixels, tuple index, time-string/timestamp slice, define_tether) on "
     "grey/RGB/two-colour, 1-3 file, constant/variable-exposure, legacy-export stacks of up to 60 frames; commuted "
-    "crop/slice pairs; horizontal-tether to_kymo; a malformed stream (zero step, 4-tuples, spatial steps, reversed "
+    "crop/slice pairs; horizontal-tether to_kymo (incl. the F9 class: left tether end cropped away); a malformed stream (zero step, 4-tuples, spatial steps, reversed "
     "ROIs). Non-trivial: the program selects a proper non-empty subset of frames or pixels, or raises, or defines a "
     "tether."
 )
@@ -50,8 +57,9 @@ TRUSTED = [
     "tifffile (writing the test stacks, reading pages/tags) and numpy indexing as the reference semantics of the oracle",
     "pixel identity: the synthetic stacks encode (page,row,column,channel) injectively, so an image decodes to the "
     "exact index lists it was taken from (builders_tiff.decode re-checks the whole array)",
-    "tether: executed at Float in the model (sqrt, normalised direction instead of arctan2/cos/sin), compared with "
-    "1e-9*(1+|coordinate|); theorems about the tether geometry are not part of this claim",
+    "tether: executed at Float in the model (sqrt, normalised direction (dx/r, dy/r) instead of arctan2/cos/sin and "
+    "matrix products), compared with 1e-9*(1+|coordinates|); the tether_* theorems are about the same definitions "
+    "at R (rounding is not modelled)",
 ]
 ASSUMPTIONS = [
     "stacks built by the code have a positive step (hypothesis 0 < st of slice_refines/index_refines; established by "
@@ -560,12 +568,15 @@ def oracle_kymo(spec, prog, pages, rows, cols, geo, ans):
     if w < 0 or row - w < 0 or row + w + 1 > len(rows):
         return None if ans == "ValueError" else f"kymo-window: half window {w} leaves the image, expected ValueError, got {ans[:100]}"
     lo, hi = math.floor(xa), math.floor(xb) + 1
+    outside_left = lo < 0
     if lo < 0:
-        return None  # tether sticks out on the left: see the report (negative-index wrap); not judged here
+        lo = 0  # the part of the tether row that lies inside the (cropped) image
     if hi > len(cols):
         hi = len(cols)
     if hi - lo < 2 or len(pages) < 2:
         return None
+    if outside_left and ans == "ValueError":
+        return None  # refusing a tether that leaves the image is acceptable
     if not ans.startswith("kymo "):
         return f"kymo: expected a kymograph of {hi - lo} pixels x {len(pages)} lines, got {ans[:100]}"
     chans, lt, start = parse_kymo(ans)
@@ -666,7 +677,20 @@ def tags(case, r):
                 crop_after_step = True
         t["crop_or_tether_after_stepped_slice"] = crop_after_step
         t["kinds"] = "".join(kinds)
+        t["kymo_tether_left_end_outside_image"] = kymo_left_outside(case)
     return t
+
+
+def kymo_left_outside(case):
+    """to_kymo on a horizontal tether whose left end has a negative x in the current (cropped) image"""
+    prog = case["prog"]
+    if not prog or prog[-1][0] != "k":
+        return False
+    try:
+        _, _, _, geo = simulate(case["spec"], prog[:-1])
+    except Expect:
+        return False
+    return bool(geo["defined"] and geo.get("flat") and math.floor(geo["mid"][0] - geo["len"] / 2) < 0)
 
 
 def shrink(case):
@@ -1014,7 +1038,7 @@ def cases(tier, rng):
         yield prog_case("malformed", spec, p)
 
     # ---- seeded random programs
-    N = 1200 if quick else 25000
+    N = 1200 if quick else 16000
     r = rng.fork("c07-programs")
     for i in range(N):
         sub = r.fork(i)
@@ -1023,7 +1047,7 @@ def cases(tier, rng):
         yield prog_case("random-programs", spec, prog, subseed=i)
 
     # ---- commuted pairs: crop then select  vs  select then crop
-    M = 300 if quick else 6000
+    M = 300 if quick else 4000
     r = rng.fork("c07-commute")
     for i in range(M):
         sub = r.fork(i)
@@ -1037,7 +1061,7 @@ def cases(tier, rng):
         yield {"stream": "commute", "op": "commute", "spec": spec, "prog": pre + [crop, sel], "prog2": pre + [sel, crop], "subseed": i}
 
     # ---- horizontal tethers and kymographs
-    K = 200 if quick else 3000
+    K = 200 if quick else 2000
     r = rng.fork("c07-kymo")
     for i in range(K):
         sub = r.fork(i)
@@ -1066,6 +1090,19 @@ def cases(tier, rng):
             prog.append(["c", None, sub.choice([None, cw - 1]) if cw - 1 > x1 + 2 else None, None, None])
         prog.append(["k", sub.choice([0, 0, 1, 1, 2])])
         yield prog_case("kymo", spec, prog, subseed=i)
+    # tether whose left end is cut off by a later crop (finding F9: the negative x wraps around in Roi.crop)
+    K2 = 40 if quick else 400
+    r = rng.fork("c07-kymo-outside")
+    for i in range(K2):
+        sub = r.fork(i)
+        h, w = sub.randint(3, 6), sub.randint(7, 10)
+        spec = bt.make_spec(files=(sub.randint(2, 5),), h=h, w=w, colour=sub.choice(["grey", "rgb"]), t0=bt.T0)
+        x1 = sub.randint(0, 1)
+        x2 = sub.randint(w - 2, w - 1)
+        y = sub.randint(0, h - 1)
+        cut = sub.randint(x1 + 1, x2 - 2)
+        prog = [["T", float(x1), float(y), float(x2), float(y)], ["c", cut, None, None, None], ["k", 0]]
+        yield prog_case("kymo-outside", spec, prog, subseed=i)
 
 
 def extra_coverage(results):
